@@ -41,10 +41,17 @@ def suite_riemann(ctx, case):
     if case.get('dtype') == 'int': f = np.rint(3 * f / (np.max(np.abs(f)) + 1e-300)).astype(int)        # integer-typed samples, e.g. np.where(r <= R, 1, 0)
     elif case.get('dtype') == 'bool': f = f > 0                                                        # boolean indicator r <= R
     given = f.copy()
+    dr = float(d.dr); dk = float(d.dk)
+    if case.get('rejected_setter'):
+        # a spacing assignment that is REJECTED (zero: the conjugate spacing cannot be formed) and caught by the caller; the grids are
+        # untouched and the transforms that follow are those of the spacing the grids have
+        try: d.dr = 0
+        except ZeroDivisionError: pass
+        try: d.dk = 0
+        except ZeroDivisionError: pass
     F = d.to_fourier(f); R = d.to_real(f)
     ctx.pred('riemann', case, bool(np.array_equal(f, given)) and f.dtype == given.dtype, 'a transform modified the array it was given', key='C08:purity')
     f = np.asarray(f, dtype=float)
-    dr = float(d.dr); dk = float(d.dk)
     r = np.arange(1, N + 1) * dr; k = np.arange(1, N + 1) * dk
     S = np.sin(np.outer(k, r - dr / 2))                     # S[j,i] = sin(k_j (r_i - dr/2))
     Fref = (4 * math.pi * dr / k) * (S @ (r * f))
@@ -160,6 +167,7 @@ def generate(ctx):
         if rng.random() < 0.12: case.pop('dk', None); case['dr'] = rng.choice([1, 2, 3])        # integer-TYPED spacing: Domain(length, dr=1)
         elif rng.random() < 0.12: case.pop('dk', None); case['dr'] = float('%.5g' % (10 ** rng.uniform(-12, -9)))      # lengths in metres: spacings of 1e-12 .. 1e-9
         case['dtype'] = rng.choice(['float', 'float', 'float', 'int', 'bool']); case['decoy'] = rng.random() < 0.5
+        case['rejected_setter'] = rng.random() < 0.15
         for _ in range(rng.choice([0, 0, 1, 2])):
             k = rng.choice(['dr', 'dk', 'length'])
             case['ops'].append([k, rng.choice([5, 9, 16, 21, 40]) if k == 'length' else float('%.5g' % (10 ** rng.uniform(-2, 0.5)))])
